@@ -864,16 +864,16 @@ where
 
 unsafe impl<K, N, E> Send for Node<K, N, E>
 where
-    K: Clone + Hash + Display + PartialEq + Eq + Send,
-    N: Clone + Send,
-    E: Clone + Send,
+    K: Clone + Hash + Display + PartialEq + Eq + Send + Sync,
+    N: Clone + Send + Sync,
+    E: Clone + Send + Sync,
 {
 }
 
 unsafe impl<K, N, E> Sync for Node<K, N, E>
 where
-    K: Clone + Hash + Display + PartialEq + Eq + Sync,
-    N: Clone + Sync,
-    E: Clone + Sync,
+    K: Clone + Hash + Display + PartialEq + Eq + Send + Sync,
+    N: Clone + Send + Sync,
+    E: Clone + Send + Sync,
 {
 }
